@@ -705,6 +705,9 @@ func unify(p, t *Term, b Bind) bool {
 		}
 		return true
 	}
+	if p.K == "const" && t.K == "type" {
+		return nameMatches(p.S, t.S)
+	}
 	if p.K != t.K {
 		return false
 	}
